@@ -239,7 +239,7 @@ PROPS = {
                  "versions, flags, counts, lengths, offsets, values; all of them in thorough; in quick a 4000-per-seed sample plus the extremes 0 / max-1 / max "
                  "of EVERY field), directed size+count pairs (every count field together with the sizes of its 1..3 innermost enclosing boxes raised to "
                  "~2^24 / 2^31 / 2^32), pairwise substitution of near-by fields, byte-level havoc (flips, runs, deletes, duplicates, splices of two seeds, "
-                 "truncation, fourcc swaps), directed size+offset pairs, 20 amplifier families (one of them, many fragments of one sample each without decode-time box, at 8 x the usual sizes), and 40 000 (thorough 200 000) freshly generated plain and fragmented movies, each as a "
+                 "truncation, fourcc swaps), directed size+offset pairs, 20 amplifier families (one of them, many fragments of one sample each without decode-time box, at 16 x the usual sizes, at most 4 MiB), and 40 000 (thorough 200 000) freshly generated plain and fragmented movies, each as a "
                  "file, as media segment against its own initialisation segment, and with one havoc variant. Every input is opened (read_header, and read_fragment_header against three opened initialisation segments) and, when it "
                  "opens, every accessor is called: movie and track accessors, metadata, to_json/summary/box_size of every parsed box, sample_count, "
                  "sample_offset and read_sample for ids 0..16, count-1..count+2, 2^31, 2^32-1 and track ids 0 / present / max+1. A panic hook records "
@@ -264,7 +264,7 @@ PROPS = {
                  "if the minimum over three runs exceeds it; 20 amplifier families (many sample description boxes with a huge entry count, many containers with a tiny child, many tracks x many movie fragments, zero-size child in moov/trak/stbl/udta/moof, sub-header-size boxes "
                  "at top level and inside moov, many traks whose parameter-set lengths reach the end of the file, counts of 2^32-1 without payload, "
                  "runs declaring 2^32-1 samples without fields, nested overrun chains, many rewinding meta boxes, many emsg, many sample entries whose "
-                 "descriptor chain overruns into the following ones, many track fragments with long runs, many movie fragments of one sample each without a decode-time box - the last family at 8 x the sizes, because its hostile cost is CPU work of a later call only) are emitted at sizes n, 2n, 4n, 8n; between "
+                 "descriptor chain overruns into the following ones, many track fragments with long runs, many movie fragments of one sample each without a decode-time box - the last family at 16 x the sizes (at most 4 MiB), because its hostile cost is CPU work of a later call only) are emitted at sizes n, 2n, 4n, 8n; between "
                  "consecutive sizes operations and bytes must not grow faster than 1.6 x the size ratio (one step suffices, the counters are deterministic) "
                  "and CPU time (minimum of two sweeps, above a 20 ms floor) must not do so on two consecutive steps (doubling test). Strata and "
                  "distinct_nontrivial as C06."),
